@@ -217,7 +217,7 @@ def flux_variability_analysis(
                     UserWarning,
                 )
             with model:
-                add_pfba(model, fraction_of_optimum=0)
+                add_pfba(model, fraction_of_optimum=fraction_of_optimum)
                 ub = model.slim_optimize(error_value=None)
                 flux_sum = prob.Variable("flux_sum", ub=pfba_factor * ub)
                 flux_sum_constraint = prob.Constraint(
